@@ -35,6 +35,11 @@ type Event struct {
 	Gate  string
 }
 
+// writeSkew: a blocked write whose deadline was derived from a context deadline times out this
+// much later than the deadline, so that the context's own timer is always observed first (the
+// opposite timer order is not modelled, see DESIGN.md section 6).
+const writeSkew = 100 * time.Millisecond
+
 type timeoutErr struct{}
 
 func (timeoutErr) Error() string   { return "i/o timeout" }
@@ -403,10 +408,10 @@ func (c *Conn) Write(p []byte) (int, error) {
 		if n < 0 {
 			n = 0
 		}
-		for !c.closed && !(c.wArmed && !time.Now().Before(c.wDL.Add(2*time.Millisecond))) {
+		for !c.closed && !(c.wArmed && !time.Now().Before(c.wDL.Add(writeSkew))) {
 			var t *time.Timer
 			if c.wArmed {
-				t = time.AfterFunc(time.Until(c.wDL)+3*time.Millisecond, func() { c.cond.Broadcast() })
+				t = time.AfterFunc(time.Until(c.wDL)+writeSkew+time.Millisecond, func() { c.cond.Broadcast() })
 			}
 			c.cond.Wait()
 			if t != nil {
